@@ -3,9 +3,9 @@ package main
 import (
 	"encoding/json"
 	"flag"
-	"path/filepath"
 	"fmt"
 	"os"
+	"path/filepath"
 	"sort"
 	"strconv"
 	"time"
